@@ -43,6 +43,12 @@ VP_HARNESS(h_dec_fresh)
 #if N > 0
     buf[0] = VER;
 #endif
+#if defined(FMT) && N > 4
+    buf[4] = FMT;   // optional concrete CMP message type (large status shapes)
+#endif
+#if defined(FPT) && N > 21
+    buf[21] = FPT;  // optional concrete payload type of the first message
+#endif
     for (unsigned i = 0; i < N; ++i)
         g_orig[i] = buf[i];
     Decoder* d = new Decoder;
